@@ -408,6 +408,11 @@ seqs.forEach((seq, si) => {{
     }}
   }});
 }});
+seqs.forEach((seq, si) => {{
+  const arrays = [[], [], [], []]; const ids = new Map();
+  seq.forEach(call => {{ const a = CleanupArena.createWith(...call.map(i => i < 0 ? null : arrays[i])); ids.set(a, ids.size); }});
+  console.log('arrays ' + si + ' ' + arrays.map(a => a.map(x => ids.get(x)).join(' ')).join(';'));
+}});
 console.log('done ' + seqs.length);
 "#);
     std::fs::write(dir.join("main.mjs"), prog).unwrap();
@@ -419,7 +424,22 @@ console.log('done ' + seqs.length);
         rep.oracle_fail("(c04 probe js-arena)", "the JS runtime's CleanupArena helpers throw", json!({"stderr": err.lines().take(5).collect::<Vec<_>>()}));
         return;
     }
-    for l in out.lines().filter(|l| !l.starts_with("done")) {
+    // the model of `createWith` (JsArena.lean; Props/C04 proves the arena is on every array given and stays there)
+    let mlines: Vec<String> = seqs.iter().map(|s| format!("(arena 4 {})", s.iter().map(|c| format!("({})", c.iter().map(|x| if *x < 0 { "n".to_string() } else { x.to_string() }).collect::<Vec<_>>().join(" "))).collect::<Vec<_>>().join(" "))).collect();
+    match crate::model::run_model("C04", &mlines) {
+        Ok(model) => {
+            for l in out.lines().filter(|l| l.starts_with("arrays ")) {
+                let mut it = l.splitn(3, ' ');
+                let (_, si, rest) = (it.next(), it.next().and_then(|x| x.parse::<usize>().ok()).unwrap_or(0), it.next().unwrap_or(""));
+                rep.count("js-arena-model-tie");
+                if model.get(si).map(|m| m.as_str()) != Some(rest) {
+                    rep.disagree(&mlines[si], "js-arena", rest, model.get(si).map(|m| m.as_str()).unwrap_or("?"));
+                }
+            }
+        }
+        Err(e) => rep.disagree("js-arena", "model-driver", "", &e),
+    }
+    for l in out.lines().filter(|l| !l.starts_with("done") && !l.starts_with("arrays ")) {
         let f: Vec<&str> = l.splitn(5, ' ').collect();
         let si: usize = f.get(1).and_then(|x| x.parse().ok()).unwrap_or(0);
         rep.oracle_fail(&format!("(c04 probe js-arena calls={:?})", seqs.get(si)), "an arena created for a borrowed slice is not appended to every edge array it was created with: a holder of that array does not keep the buffer alive", json!({"line": l}));
